@@ -124,6 +124,10 @@ def scenarios() -> Dict[str, Tuple[List, List[Req], int]]:
     p = ([("set", [Q(0), 0]), ("qalloc", [Q(0)]), ("init", [Q(0)])] + arr(0, 10) + qids(1, [0]) + recv(1, 0, 1, 0)
          + use(0) + [("set", [Q(0), 0]), ("qfree", [Q(0)])] + wait_all(0, 0, 10) + use(0) + [("ret_arr", [("addr", 0)])])
     S["target-busy-then-freed"] = (p, [Req("recv", 1, 0, "K", 1, 0, 1, [0])], 2)
+    # S6b: the same with the target at the HIGHEST virtual id of the unit module (boundary of the "is it allocated" test)
+    p = ([("set", [Q(0), 2]), ("qalloc", [Q(0)]), ("init", [Q(0)])] + arr(0, 10) + qids(1, [2]) + recv(1, 0, 1, 0)
+         + use(2) + [("set", [Q(0), 2]), ("qfree", [Q(0)])] + wait_all(0, 0, 10) + use(2) + [("ret_arr", [("addr", 0)])])
+    S["target-busy-highest-id"] = (p, [Req("recv", 1, 0, "K", 1, 0, 1, [2])], 3)
     # S7: different remote nodes on the same socket id, create measure (1) + recv keep (2)
     p = (arr(0, 10) + create(2, 0, None, 4, 0, 1, 1) + arr(2, 20) + qids(3, [0, 1]) + recv(1, 0, 3, 2)
          + wait_all(2, 10, 20) + wait_all(0, 0, 10) + wait_all(2, 0, 10) + use(1) + [("ret_arr", [("addr", 2)])])
